@@ -20,7 +20,7 @@ Print Assumptions C05_queues_sorted_bound.
    by (priority, arrival number) -- the node code reaches the stores only through their operations
    (theories/Factory/FactoryQueue.v, lifted through every process block) *)
 Theorem C05_queues_sorted_in_every_factory :
-  forall nodes edges order n, Forall FactoryQueue.EOK edges ->
+  forall nodes edges order n, Forall (fun ed => StoreBOrder.QInv (World.est ed)) edges ->
     forall i ed, nth_error (World.wedges (FactoryInv.iter_fstep n (Factory.mk_world nodes edges order))) i = Some ed ->
       StoreBOrder.QInv (World.est ed).
 Proof. exact FactoryQueue.queues_sorted_everywhere. Qed.
